@@ -28,7 +28,10 @@ ANN = {"s": "int", "b": "str", "e": "float", "z1": "bool", "k2": "Optional[int]"
 DEFAULTS = {"s": "1", "b": "'two'", "e": "3.5", "z1": "True", "k2": "None"}
 DOC_DEFAULTS = {"s": 0, "b": "zero", "e": 0.0, "z1": False, "k2": 0}  # what the docstring claims in 'conflict' mode
 STYLES = ("rest", "numpydoc", "google")
-FORMS = ("function", "self", "cls", "class_init", "class_init_nested_before", "class_init_nested_after", "class_init_module")
+FORMS = ("function", "self", "cls", "class_init", "class_init_nested_before", "class_init_nested_after", "class_init_module",
+         # the same definitions handed over as live objects (imported from a module file that is rewritten for every case
+         # under the same module name and the same qualified names)
+         "live_function", "live_class_init")
 # the class + __init__ form in richer surroundings: a nested helper class with its own __init__ before / after the
 # outer __init__; a module (searched by class name) whose earlier class has a name that is a suffix of the wanted one
 HELPER = "    class Helper(object):\n        def __init__(self, key, value=2):\n            self.key = key\n\n"
@@ -65,7 +68,7 @@ def build_cases(tier):
                         for form in FORMS:
                             if tier == "quick" and style != "rest" and form not in ("function", "class_init"):
                                 continue
-                            if form.startswith("class_init_") and tier == "quick" and ann == "alt":
+                            if (form.startswith("class_init_") or form.startswith("live_")) and tier == "quick" and ann == "alt":
                                 continue
                             cases.append((p, d, q, kwmask, kwargs, ann, style, sub, order, form, 0))
                             # docstring states a (falsy) default that differs from the signature's: documented wins
@@ -113,6 +116,8 @@ def render(case):
         documented = documented[::-1]
     doc_types = {}
     lines = []
+    live = form.startswith("live_")
+    form = {"live_function": "function", "live_class_init": "class_init"}.get(form, form)
     ind = "        " if form != "function" else "    "
     if style == "rest":
         for n in documented:
@@ -156,10 +161,40 @@ def render(case):
     return src, exp, documented, doc_types
 
 
+_LIVE = {}
+
+
+def live_object(src, name):
+    """Write ``src`` to <private dir>/c07live.py, import it afresh and return the named object."""
+    import importlib
+    import tempfile
+
+    if "dir" not in _LIVE:
+        _LIVE["dir"] = tempfile.mkdtemp(prefix="c07live_%d_" % os.getpid())
+        import atexit
+        import shutil
+
+        atexit.register(shutil.rmtree, _LIVE["dir"], True)
+        sys.path.insert(0, _LIVE["dir"])
+    path = os.path.join(_LIVE["dir"], "c07live.py")
+    with open(path, "w") as f:
+        f.write("from typing import Optional\n" + src)
+    sys.modules.pop("c07live", None)
+    importlib.invalidate_caches()
+    import linecache
+
+    linecache.checkcache(path)
+    return getattr(importlib.import_module("c07live"), name)
+
+
 def parse_case(case, src):
     from doctrans import parse
 
     form = case[9]
+    if form == "live_function":
+        return parse.function(live_object(src, "f"))
+    if form == "live_class_init":
+        return parse.class_(live_object(src, "K"), merge_inner_function="__init__")
     tree = ast.parse(src)
     if form == "function":
         return parse.function(tree.body[0])
@@ -176,7 +211,7 @@ def python_view(case, src):
 
     ns = {"Optional": typing.Optional}
     exec(compile(src, "<c07>", "exec"), ns)
-    form = case[9]
+    form = {"live_function": "function", "live_class_init": "class_init"}.get(case[9], case[9])
     obj = ns["f"] if form == "function" else (ns["K"].__dict__["f"] if form in ("self", "cls") else
                                              ns["TrainK" if form == "class_init_module" else "K"].__init__)
     if isinstance(obj, classmethod):
